@@ -139,7 +139,13 @@ def entries():
     add("SVDLinear", "transform", lambda: TR.SVDLinear(3, num_householder=2, identity_init=False), _rn(3), flags={"inv", "linear"})
     add("NaiveLinear", "transform", lambda: TR.NaiveLinear(3), _rn(3), flags={"inv", "linear", "ctor_random"})
     add("NaiveLinear/cached", "transform", lambda: TR.NaiveLinear(3, orthogonal_initialization=False, using_cache=True), _rn(3), flags={"inv", "linear", "ctor_random", "bigperturb"})
-    add("NaiveLinear/64", "transform", lambda: TR.NaiveLinear(64, orthogonal_initialization=False), _rn(64), flags={"inv", "linear", "ctor_random", "noperturb", "large"})
+    def naive64():
+        m = TR.NaiveLinear(64, orthogonal_initialization=False)
+        with torch.no_grad():
+            m._weight.mul_(0.3)      # log|det W| is about -140: |det W| itself underflows in float32
+        return m
+
+    add("NaiveLinear/64", "transform", naive64, (lambda n, g: 0.05 * torch.randn(n, 64, generator=g)), flags={"inv", "linear", "ctor_random", "noperturb", "large"}, y=(lambda n, g: 0.01 * torch.randn(n, 64, generator=g)))
     add("OneByOneConvolution", "transform", lambda: TR.OneByOneConvolution(3, identity_init=False), _rn(3, 2, 3), flags={"inv", "image", "linear", "ctor_random"})
     add("HouseholderSequence", "transform", lambda: TR.HouseholderSequence(3, 3), _rn(3), flags={"inv", "linear"})
     # ---- structure
